@@ -431,6 +431,7 @@ pub fn env_multicast_ok() -> bool {
 /// established) while the environment demonstrably delivers multicast is run once more; twice in a row it is a failure of
 /// the service, not an absent network.
 pub fn live_with_baseline(what: &str, f: &dyn Fn() -> Case) -> Case {
+    let _phase = crate::core::live_phase();
     let c = f();
     if !c.tags.iter().any(|t| t == "sockets-not-exercised") || c.oracle_fail.is_some() || !env_multicast_ok() { return c; }
     let again = f();
@@ -440,6 +441,7 @@ pub fn live_with_baseline(what: &str, f: &dyn Fn() -> Case) -> Case {
 
 /// the same for a live run that yields several cases
 pub fn live_vec_with_baseline(what: &str, f: &dyn Fn() -> Vec<Case>) -> Vec<Case> {
+    let _phase = crate::core::live_phase();
     let lost = |c: &Case| c.tags.iter().any(|t| t == "sockets-not-exercised") && c.oracle_fail.is_none();
     let first = f();
     if !first.iter().any(lost) || !env_multicast_ok() { return first; }
